@@ -42,6 +42,8 @@ var fnWhitelist = map[string][]string{
 		"AuthorizationResponseClaims.Claims", "GenericClaims.Claims",
 		"SigningKeys.Contains", "OperatorClaims.DidSign", "AccountClaims.DidSign",
 		"RenamingSubject.Validate",
+		"Activation.IsService", "Activation.IsStream", "Activation.Validate", "ActivationClaims.validateWithTimeChecks", "ActivationClaims.Validate",
+		"Import.IsService", "Import.IsStream", "Import.GetTo", "Import.Validate", "Imports.Validate",
 		"ServiceLatency.Validate", "Export.IsService", "Export.IsStream", "Export.IsSingleResponse", "Export.IsChunkedResponse", "Export.IsStreamResponse",
 		"Export.Validate", "isContainedIn", "Exports.Validate", "Exports.HasExportContainingSubject", "Mapping.Validate",
 	},
@@ -138,6 +140,10 @@ func (g *fnGen) leanType(t types.Type) string {
 		unsup("basic type %s", u.String())
 	case *types.Pointer:
 		return g.leanType(u.Elem())
+	case *types.Struct:
+		if u.NumFields() == 0 {
+			return "Unit"
+		}
 	case *types.Slice:
 		if g.nilableElem(u.Elem()) {
 			return "(List (Option " + g.leanType(u.Elem()) + "))"
@@ -162,12 +168,17 @@ var nilableElems = map[string]bool{"Export": true, "Import": true}
 
 // opaqueFns: package functions that translated code may call but that stay outside the translation (their behaviour
 // is a parameter of the translated caller: a field of the generated structure `Opq`)
-var opaqueFns = map[string]bool{"Info.Validate": true}
+var opaqueFns = map[string]bool{"Info.Validate": true, "DecodeActivationClaims": true, "RenamingSubject.ToSubject": true}
 
 // foreignOpaque: functions of other packages that translated code may call; each becomes a field of `Opq`
 // (name, Lean type of the field, and how a two-value result is read)
 var foreignOpaque = map[string]string{
-	"strconv.Atoi": "Str → Option Int", // none = the error result
+	"strconv.Atoi":                   "Str → Option Int", // none = the error result
+	"nkeys.IsValidPublicAccountKey":  "Str → Bool",
+	"nkeys.IsValidPublicUserKey":     "Str → Bool",
+	"nkeys.IsValidPublicOperatorKey": "Str → Bool",
+	"nkeys.IsValidPublicServerKey":   "Str → Bool",
+	"nkeys.IsValidPublicCurveKey":    "Str → Bool",
 }
 
 func (g *fnGen) foreignCall(call *ast.CallExpr) string {
@@ -495,7 +506,11 @@ func (g *fnGen) opqFieldType(fn *types.Func) string {
 		}
 	}
 	for _, r := range fi.results {
-		rs = append(rs, g.leanType(r))
+		if _, ok := ptrToStruct(r); ok {
+			rs = append(rs, "(Option "+g.leanType(r)+")")
+		} else {
+			rs = append(rs, g.leanType(r))
+		}
 	}
 	ret := "Unit"
 	if len(rs) == 1 {
@@ -999,6 +1014,9 @@ func (c *fnCtx) binary(x *ast.BinaryExpr) ex {
 
 func (c *fnCtx) composite(x *ast.CompositeLit) ex {
 	t := c.typeOf(x)
+	if st, ok := t.(*types.Struct); ok && st.NumFields() == 0 {
+		return ex{"()", false}
+	}
 	switch u := t.Underlying().(type) {
 	case *types.Struct:
 		lt := c.g.leanType(t)
@@ -1161,6 +1179,9 @@ func (c *fnCtx) call(x *ast.CallExpr) ex {
 				return c.expr(se.X)
 			}
 		}
+	}
+	if q := c.g.foreignCall(x); q != "" && foreignOpaque[q] == "Str → Bool" {
+		return c.pureApp("opq."+strings.ReplaceAll(q, ".", "_"), c.expr(x.Args[0]))
 	}
 	if se, ok := x.Fun.(*ast.SelectorExpr); ok {
 		if in, ok := c.g.ifaceOf(c.typeOf(se.X)); ok {
@@ -1441,6 +1462,11 @@ func (c *fnCtx) stmt(b *block, s ast.Stmt) {
 			vs := sp.(*ast.ValueSpec)
 			for i, id := range vs.Names {
 				o := c.g.p.TypesInfo.Defs[id]
+				if _, ok := ptrToStruct(o.Type()); ok && i >= len(vs.Values) {
+					c.nilVars[o] = true // `var p *T`: nil
+					c.assignVar(b, o, "none")
+					continue
+				}
 				v := c.g.zero(o.Type())
 				if i < len(vs.Values) {
 					v = c.expr(vs.Values[i]).bind()
@@ -1728,6 +1754,20 @@ func (c *fnCtx) assign(b *block, x *ast.AssignStmt) {
 				c.store(b, x.Lhs[1], "("+val+").isSome")
 			}
 			return
+		}
+	}
+	// p, err = OpaqueFn(args): the two results of an opaque package function
+	if len(x.Lhs) == 2 && len(x.Rhs) == 1 {
+		if call, ok := x.Rhs[0].(*ast.CallExpr); ok {
+			if fi := c.g.callee(call); fi != nil && fi.fd == nil && len(fi.results) == 2 {
+				app := c.callFn(call, fi)
+				c.tmpN++
+				tmp := fmt.Sprintf("__o%d", c.tmpN)
+				b.add("let %s ← %s", tmp, app.s)
+				c.store(b, x.Lhs[0], tmp+".1")
+				c.store(b, x.Lhs[1], tmp+".2")
+				return
+			}
 		}
 	}
 	// v, err := strconv.Atoi(s)
